@@ -48,6 +48,8 @@ def run(ctx):
 
     ctx.rule("R05.1", "append_logs: one write, then flush, then fsync on every normal path out of the open block")
     J.rule_append_ordering(ctx, "R05.1")
+    ctx.rule("R05.6", "an append starts on a record boundary: the tail of the file is inspected (and a torn record dealt with) before the write")
+    J.rule_append_starts_on_record_boundary(ctx, "R05.6")
     ctx.rule("R05.2", "journal file only opened 'ab'/'rb'; never truncated/replaced (zero-count, with fixture)")
     J.rule_append_only(ctx, "R05.2")
     J.fixture_append_only(ctx, "R05.2")
